@@ -347,10 +347,14 @@ func nextGraphemeTokenInfo(buf []byte, state int, forceMergeNext bool, lastWasRI
 	case isVariationSelectorOnly(cluster):
 		merge = true
 	case isRegionalIndicator(cluster):
-		if nextLastWasRI {
+		switch {
+		case utf8.RuneCount(cluster) > 1:
+			// a whole flag: the segmentation already paired the two indicators
+			nextLastWasRI = false
+		case nextLastWasRI:
 			merge = true
 			nextLastWasRI = false
-		} else {
+		default:
 			nextLastWasRI = true
 		}
 	default:
